@@ -1,8 +1,188 @@
-import ZodbModel.Refs
-namespace Props.C14
-open ZodbModel ZodbModel.Refs
+/-
+  C14 — Object graphs round-trip and reference extraction is exact.
 
-/-- placeholder while the proofs are being written -/
-theorem ascii_oid_normalised_bytes (b : Bytes) : (OidTok.bytes b).norm = .ok b := rfl
+  Property theorems only (helper lemmas: `Proofs/RefsTree|RefsWriter|RefsCommit|RefsLoad|RefsRound`).
+  Model: `ZodbModel/Refs.lean` — `ObjectWriter.persistent_id/serialize`, the writer stack loop of
+  `Connection._store_objects`, the loop of `Connection._commit`, `referencesf`/`get_refs` over the
+  reference tokens, and `ObjectReader._persistent_load` with the per-connection caches.  The pickle
+  virtual machine is not modelled: a record is the pair of token trees it decodes to.
+
+  Vocabulary (defined in the model file, section "specification vocabulary"):
+    TokFor env objs s l tk      `tk` is the reference `persistent_id` prescribes for leaf `l`
+    RecFor env objs s o r       record `r` is object `o` with every persistent leaf replaced by its token
+    strongRefs env objs s ls    oids of the strong, same-database leaves among `ls`, in order
+    Stored objs p h             `h` is registered-and-added/changed, or oid-less and referred to by a
+                                Stored object (least such set)
+    SameTarget env objs sf ls   a loaded leaf stands for what the in-memory leaf referred to
+-/
+import Proofs.RefsRound
+namespace Props.C14
+open ZodbModel ZodbModel.Refs ZodbModel.Refs.Tree Proofs.Refs
+
+/-! ## reference extraction is exact -/
+
+/-- `referencesf` of the record `serialize` writes for object `h` = the oids of the ordinary
+    (strong, own-connection) persistent leaves of the object's class meta and state, in pickling
+    order with repetitions — no weak reference, no cross-database reference; never an error. -/
+theorem refs_exact (env : Env) (objs : List Obj) (s s' : WState) (h : H) (r : Record)
+    (hs : serialize env objs s h = .ok (r, s')) :
+    ∃ o, objs[h]? = some o ∧ referencesOf r.tokens = .ok (strongRefs env objs s' o.leaves) := by
+  obtain ⟨o, ho, _, hr, _⟩ := serialize_spec hs
+  exact ⟨o, ho, referencesOf_tokFor (recFor_tokens hr)⟩
+
+/-- the same for every record of a whole commit, with the oids the objects have when it is over -/
+theorem refs_exact_commit (env : Env) (objs : List Obj) (p : Pending) (out : List (H × Record))
+    (sf : WState) (hc : commit env objs p = .ok (out, sf)) :
+    ∀ hr ∈ out, ∃ o, objs[hr.1]? = some o ∧
+      referencesOf hr.2.tokens = .ok (strongRefs env objs sf o.leaves) := by
+  intro hr hm
+  obtain ⟨o, ho, hrec⟩ := commit_records hc hr hm
+  exact ⟨o, ho, referencesOf_tokFor (recFor_tokens hrec)⟩
+
+/-- `get_refs` lists the same oids as `referencesf` -/
+theorem getRefs_same_oids (toks : List Tok) :
+    (getRefs toks).map (fun l => l.map (·.1)) = referencesOf toks := getRefs_fst toks
+
+/-- An all-ASCII oid that a Python-2 record hands over as `str` is normalised back to the same
+    bytes … -/
+theorem ascii_oid_normalised (b : Bytes) (tk : OidTok) (hd : decodePy2Str b = .ok tk) :
+    tk.norm = .ok b := by
+  unfold decodePy2Str at hd
+  split at hd
+  · rename_i h
+    simp only [Except.ok.injEq] at hd; subst hd
+    simp [OidTok.norm, asciiEncode, h]
+  · simp at hd
+
+/-- … so a record whose all-ASCII oids arrive as `str` has exactly the references of the same
+    record with `bytes` oids, for every list of tokens (every reference format) … -/
+theorem ascii_oid_refs (toks : List Tok) :
+    referencesOf (toks.map (Tok.mapOid py2)) = referencesOf toks := referencesOf_py2 toks
+
+/-- … and loads to the same objects. -/
+theorem ascii_oid_load (lenv : LEnv) (db : Db) (ls : LState) (tk : Tok) :
+    persistentLoad lenv db ls (Tok.mapOid py2 tk) = persistentLoad lenv db ls tk :=
+  persistentLoad_py2 lenv db ls tk
+
+/-! ## what a commit stores -/
+
+/-- the writer stack loop never runs out of the fuel the model gives it (so `outOfFuel` is not an
+    outcome, and the theorems below about `commit … = .ok …` cover every terminating run) -/
+theorem commit_fuel_sufficient (env : Env) (objs : List Obj) (p : Pending) :
+    commit env objs p ≠ .error .outOfFuel := Proofs.Refs.commit_fuel_sufficient env objs p
+
+/-- A successful commit stores exactly: the registered objects that were added or changed, and the
+    objects without oid reachable from stored objects through references — no more, no fewer, each
+    once; and the writer stack is drained. -/
+theorem stored_iff_reachable_or_added (env : Env) (objs : List Obj) (p : Pending)
+    (out : List (H × Record)) (sf : WState) (hnd : p.registered.Nodup)
+    (hc : commit env objs p = .ok (out, sf)) :
+    (∀ h, h ∈ out.map (·.1) ↔ Stored objs p h) ∧ (out.map (·.1)).Nodup ∧ sf.stack = [] :=
+  commit_stored hnd hc
+
+/-- every stored object has an oid afterwards -/
+theorem stored_has_oid (env : Env) (objs : List Obj) (p : Pending) (out : List (H × Record))
+    (sf : WState) (hc : commit env objs p = .ok (out, sf)) :
+    ∀ hr ∈ out, ∃ oid, finalOid objs sf hr.1 = some oid := commit_out_oid hc
+
+/-- A stored record never embeds another persistent object's state: it is the object's class, and
+    its class arguments and state with the same containers and plain values, in which every
+    persistent leaf has become the reference token of its target — in particular its plain values
+    are exactly the object's own. -/
+theorem no_embedded_persistent_state (env : Env) (objs : List Obj) (p : Pending)
+    (out : List (H × Record)) (sf : WState) (hc : commit env objs p = .ok (out, sf)) :
+    ∀ hr ∈ out, ∃ o, objs[hr.1]? = some o ∧ RecFor env objs sf o hr.2 ∧ hr.2.atoms = o.atoms ∧
+      Tree.Forall2 (TokFor env objs sf) o.leaves hr.2.tokens := by
+  intro hr hm
+  obtain ⟨o, ho, hrec⟩ := commit_records hc hr hm
+  exact ⟨o, ho, hrec, recFor_atoms hrec, recFor_tokens hrec⟩
+
+/-! ## loading -/
+
+/-- one in-memory object per (database, oid), whatever is loaded in whatever order -/
+theorem one_object_per_oid (lenv : LEnv) (ops : List LOp) (h1 h2 : Nat) (x1 x2 : LObj)
+    (e1 : (lrun lenv ops).heap[h1]? = some x1) (e2 : (lrun lenv ops).heap[h2]? = some x2)
+    (hd : x1.db = x2.db) (ho : x1.oid = x2.oid) : h1 = h2 :=
+  Proofs.Refs.one_object_per_oid (lrun_inv lenv ops).1 e1 e2 hd ho
+
+/-- every reference of every loaded state leads to the in-memory object that has the reference's
+    (normalised) oid in the reference's database -/
+theorem loaded_refs_lead_to_oid (lenv : LEnv) (ops : List LOp) (h : Nat) (x : LObj) (t : Tree LLeaf)
+    (e : (lrun lenv ops).heap[h]? = some x) (hs : x.state = some t) :
+    ∃ r, lookup (x.db, x.oid) lenv.store = some r ∧
+      Tree.Rel (LeafFor x.db (lrun lenv ops)) r.state t :=
+  (lrun_inv lenv ops).2 h x t e hs
+
+/-- Round trip.  Commit a graph; put the records it stores into a database under the oids the
+    objects got; load anything in any order in another connection.  Then every activated object
+    that carries the oid of a stored object `o` has the state of `o`: the same containers and
+    plain values, every strong reference leading to THE in-memory object (see
+    `one_object_per_oid`) whose oid and database are those of the object `o` referred to, every
+    weak reference carrying the oid (and database) of its target. -/
+theorem roundtrip_graph (env : Env) (objs : List Obj) (p : Pending) (out : List (H × Record))
+    (sf : WState) (hc : commit env objs p = .ok (out, sf)) (lenv : LEnv)
+    (hstore : ∀ hr ∈ out, ∀ oid, finalOid objs sf hr.1 = some oid →
+      lookup (env.db, oid) lenv.store = some hr.2)
+    (ops : List LOp) :
+    ∀ hr ∈ out, ∀ (o : Obj) (oid : Oid) (hl : Nat) (x : LObj) (t : Tree LLeaf),
+      objs[hr.1]? = some o → finalOid objs sf hr.1 = some oid →
+      (lrun lenv ops).heap[hl]? = some x → x.db = env.db → x.oid = oid → x.state = some t →
+      Tree.Rel (SameTarget env objs sf (lrun lenv ops)) o.state t :=
+  roundtrip_session hc lenv hstore ops
+
+/-! ## non-vacuity: a concrete graph with sharing, a cycle, a self-made oid-less chain, a class with
+    constructor arguments, a weak reference and a cross-database reference -/
+
+def exEnv : Env := { db := 0, conn := 1, xrefs := true, conns := [(0, 1), (1, 2)], implicit := [],
+                     fresh := fun k => [k + 10] }
+/-- 0: the root mapping (changed) → 1;  1: new, → 2 (strong and weak), → 0 (cycle), → 3 (other db);
+    2: new, class with `__getnewargs__`, → 1, → 2 (self);  3: object of database 1;
+    4: new but unreachable -/
+def exObjs : List Obj := [
+  { cls := 1, newargs := none, state := .node 2 [.atom 5, .leaf (.strong 1)], oid := some [0],
+    jar := .conn 0 1 },
+  { cls := 3, newargs := none,
+    state := .node 0 [.leaf (.strong 2), .leaf (.weak 2), .leaf (.strong 0), .leaf (.strong 3),
+                      .leaf (.weak 3)],
+    oid := none, jar := .none },
+  { cls := 4, newargs := some (.node 1 [.atom 7]),
+    state := .node 0 [.leaf (.strong 1), .node 1 [.leaf (.strong 2)]], oid := none, jar := .none },
+  { cls := 3, newargs := none, state := .atom 0, oid := some [9], jar := .conn 1 2 },
+  { cls := 3, newargs := none, state := .atom 1, oid := none, jar := .none } ]
+def exPend : Pending := { registered := [0], added := [], changed := [0] }
+
+/-- the commit succeeds and stores root, 1 and 2 — not the foreign object 3, not the unreachable 4 -/
+example : (commit exEnv exObjs exPend).toOption.map (fun r => r.1.map (·.1)) = some [0, 1, 2] := by
+  decide
+example : exPend.registered.Nodup := by decide
+/-- the tokens: `(oid, class)`, bare oid for the class with arguments, weak, cross-database `m` -/
+example : (commit exEnv exObjs exPend).toOption.map (fun r => r.1.map (fun hr => hr.2.tokens)) =
+    some [[.tup (.bytes [10]) 3],
+          [.oid (.bytes [11]), .weak (.bytes [11]) none, .tup (.bytes [0]) 1, .multi 1 (.bytes [9]) 3,
+           .weak (.bytes [9]) (some 1)],
+          [.tup (.bytes [10]) 3, .oid (.bytes [11])]] := by decide
+/-- … of which `referencesf` keeps the strong same-database ones -/
+example : (commit exEnv exObjs exPend).toOption.map
+      (fun r => r.1.map (fun hr => (referencesOf hr.2.tokens).toOption)) =
+    some [some [[10]], some [[11], [0]], some [[10], [11]]] := by decide
+/-- `str` oids are re-encoded; a weak reference in the legacy format is skipped -/
+example : (referencesOf [.tup (.str [97, 98]) 3, .legacyWeak (.bytes [1]), .oid (.str [48])]).toOption =
+    some [[97, 98], [48]] := by decide
+example : (decodePy2Str [97, 98, 99]).toOption = some (.str [97, 98, 99]) := by decide
+/-- an invalid cross-database reference (xrefs disabled) makes the commit fail -/
+example : (commit { exEnv with xrefs := false } exObjs exPend).toOption.isNone = true := by decide
+
+/-- loading the stored records in a fresh session: root → object [10] → object [11] → back, one
+    in-memory object per oid (3 objects of database 0 and the ghost of the foreign one) -/
+def exStore : Store :=
+  match commit exEnv exObjs exPend with
+  | .ok (out, sf) => out.filterMap fun hr => (finalOid exObjs sf hr.1).map fun o => ((0, o), hr.2)
+  | .error _ => []
+def exLenv : LEnv := { store := exStore, dbs := [0, 1], missing := [] }
+def exOps : List LOp := [.get 0 [0], .activate 0, .activate 1, .activate 2, .get 0 [10], .activate 1]
+example : (lrun exLenv exOps).heap.map (fun x => (x.db, x.oid, x.cls, x.state.isSome)) =
+    [(0, [0], 1, true), (0, [10], 3, true), (0, [11], 4, true), (1, [9], 3, false)] := by decide
+example : ((lrun exLenv exOps).heap[1]?.bind (·.state)).map (·.leaves) =
+    some [.obj 2, .wref none [11], .obj 0, .obj 3, .wref (some 1) [9]] := by decide
 
 end Props.C14
